@@ -318,6 +318,18 @@ def step(run, op):
                         any(float(row[c]) != 1e4 * o + 1e2 * c for c in sh.cu):
                     ctx.fail(op, dict(sig, what='row_content'), f'DataFrame row {i} does not carry observation {o}', hist())
                     return False
+            # the channel columns may be named in any order (and a subset of them): each column keeps its name
+            chans = [sh.cu[int(i)] for i in rng.permutation(len(sh.cu))]
+            if len(chans) > 1 and rng.integers(3) == 0:
+                chans = chans[:-1]
+            sub = Dataset.from_df(df[[c for c in df.columns if c not in sh.cu or c in chans]], channels=list(chans),
+                                  channel_descriptor='cuid')
+            cols = [sh.cu.index(c) for c in chans]
+            if [int(v) for v in sub.channel_descriptors['cuid']] != chans or \
+                    not np.array_equal(sub.measurements, ds.measurements[:, cols]):
+                ctx.fail(op, dict(sig, what='from_df_channel_order'), f'from_df(channels={chans}): measurement columns '
+                         f'are not the named channels in the named order', hist())
+                return False
             back = Dataset.from_df(df, channels=list(sh.cu), channel_descriptor='cuid')
             if [int(v) for v in back.channel_descriptors['cuid']] != sh.cu or \
                     not np.array_equal(back.measurements, ds.measurements):
